@@ -26,6 +26,44 @@ Self-test of the added dimensions: a module-level cache of the 2-D Eulerian->Lag
 (num_lag_nodes, kernel width, n_components) but not dx (patch) -> VIOLATION interp-constant!=constant, interp-coordinate!=...,
 interp-affine!=..., every witness on the 'sibling' object (variant A: N = 7 at dx = 2pi/48, then at dx = 1/37).
 
+Argument dimensions (added later; nothing asserted before was changed, every new execution is compared with the SAME closed-form
+references at the SAME tolerances -- never with another execution):
+ (a) array layout -- every third batch (``batch_layout``) passes EVERY caller-supplied array as a non-contiguous array holding the same
+     values: support / weight buffers, Eulerian fields, Lagrangian outputs as interior of a sentinel-padded parent or every second
+     element of a parent ("views": numba layout 'A') or column-major ("fortran": layout 'F', a (d, N) array is (N, d) storage passed as
+     ``.T``); marker positions always as (N, d) storage passed as ``.T``.  Two layouts only (one more compilation per kernel signature
+     each); the per-layout buffers are allocated once per communicator and refilled with sentinels in place; results are read back with
+     ``np.ascontiguousarray``.  Counters batches_layout_views / _fortran, kernel_calls_with_noncontiguous_array_arguments.
+     EXCLUDED layout: strided (neither C- nor F-contiguous) marker positions / index buffers.  On the unchanged tree the support kernel
+     raises numba ``TypingError: reshape() supports contiguous array only`` for them (``lag_positions.reshape(grid_dim, 1, 1, N)`` and the
+     same reshape of the index buffer, ...Communicator2D.py:125/130, 3-D likewise; witness: ``lag_positions = P[:, ::2]`` of a (2, 14)
+     float64 array, N = 7).  A loud rejection at typing, before any value exists, of a layout SophT never supported -- not a violation of
+     this property (agreed with the framework owner); ``probe_excluded_layout`` observes it once per process (counter
+     ``excluded_layout_strided_positions:rejected_at_numba_typing``; ``...:accepted_by_this_tree`` if a later tree accepts them).
+ (b) histories of temporary views -- once per communicator object (``_history``) K = 3..6 calls of support, weights, scalar and vector
+     interpolation in a tight loop where every array argument is ``stack[name][k]`` (a fresh temporary view of different memory per
+     call, so CPython recycles the id() values); afterwards EVERY slot runs through the complete battery above (dense delta, sign, sum,
+     moment, constants, coordinates) plus the constants interpolated inside the loop.  Counters histories_of_temporary_view_arguments,
+     history_slots_compared.
+ (c) exact zeros -- an all-zero Eulerian field, and a vector field with one exactly-zero component, interpolated into sentinel-filled
+     outputs must give exactly 0 (every term is 0 * w with finite w; the relative floor of the constant check vanishes for c = 0, so the
+     comparison is by value).  Counter interp_zero_field_values.  Nothing else in this property has a parameter whose zero value is
+     meaningful (dx = 0 is inadmissible; the kernels take no coefficient or dt).
+ (d) scalar types -- the kernels take no scalar argument at call time; the two scalar CONSTRUCTOR arguments (dx, eul_grid_coord_shift)
+     are working-precision NumPy scalars everywhere else; one more communicator per shard (role 'scalar-types', the first pool entry's
+     (dx, N)) gets the same two values as python floats (variant A) / 0-d arrays of the working precision (B) / np.float64 (C) / 0-d
+     float64 arrays (D).  Counters batches_comm_built_with_other_scalar_types, batches_dx_and_shift_passed_as_<type>.
+Self-test of (a)-(d) (tools/mut.sh, quick tier, seed 0, ...Communicator2D.py; each reported VIOLATION and every witness carries the new
+dimension; the unchanged tree is HELD for seeds 0-3 quick and seed 0 thorough):
+ 19 (a) both weight kernels write ``np.ascontiguousarray(interp_weights)[...] = ...`` (a copy    weights-not-finite (sentinels never replaced) only in batches
+        for non-contiguous outputs: results never reach the caller)                              with 'layout': 'views' | 'fortran'
+ 20 (b) __init__ wraps the weights kernel with a cache of prepared output views keyed by         weights-not-finite, weights!=closed-form-delta, weight-outside-..., first
+        id(interp_weights) (``out = cache[id(w)] = w[...]``; stale for recycled ids)             moment, coordinates: all 24 witnesses are slots of a 'history'; no other batch
+ 21 (c) scalar interpolation skips the store when the window sum is 0 ("nothing in the            interp-zero-field!=0 only (all other statistics as on the unchanged tree)
+        support of this node")
+ 22 (d) __init__: ``if not isinstance(dx, np.floating): dx = np.float32(dx)`` (python floats and   weights!=closed-form-delta, sum-weights!=1, interp-constant, ... in the float64
+        0-d arrays coerced to single precision)                                                  shards, every witness on the 'scalar-types' object
+
 Tolerances (noise floors; ``kap = |X|/dx + 2`` is the amplification of the float64 cancellation in
 ``(index+j)*dx + shift - X`` -- invisible in float32 -- and ``e = eps_t + eps64*kap``):
   sign      w >= -16*eps_t*max w          (DESIGN says 4: the Peskin outer branch 5-2r-sqrt(..) is +-1.5 eps near
@@ -83,8 +121,10 @@ RULE = (
     "grid whose coordinates come from the real FlowSimulator domain set-up; position classes: uniform, exactly "
     "on cell centres (four ways of computing a centre, incl. the simulator's own position_field values), on "
     "faces, 1-2 ulp either side of centres and faces (ulp of float64 and of the working precision), clusters "
-    "inside one cell, mixed.  A case is non-trivial when N >= 1 markers were evaluated; distinct = (dim, "
-    "dtype, kernel, dyadic?, N class, position class, sub-check)."
+    "inside one cell, mixed.  Every third batch passes all array arguments as non-contiguous views (strided / padded / "
+    "column-major, positions as .T of (N, d) storage); one history of 3-6 calls with temporary-view arguments per "
+    "communicator; all-zero fields; one communicator per shard built with python-float / 0-d-array scalars.  A case is "
+    "non-trivial when N >= 1 markers were evaluated; distinct = (dim, dtype, kernel, dyadic?, N class, position class, sub-check)."
 )
 ASSUMPTIONS = [
     "rv.ref.ib: cosine and Peskin-2002 eq. 6.27 4-point functions written from the paper; checked against the "
@@ -111,6 +151,13 @@ REQUIRE = {
     "batches_N_equals_dim": 20,
     "batches_more_than_1024_markers_2d": 20,
     "batches_more_than_1024_markers_3d": 20,
+    "batches_layout_views": 200,
+    "batches_layout_fortran": 200,
+    "kernel_calls_with_noncontiguous_array_arguments": 2000,
+    "histories_of_temporary_view_arguments": 50,
+    "history_slots_compared": 150,
+    "interp_zero_field_values": 1000,
+    "batches_comm_built_with_other_scalar_types": 100,
 }
 
 EPS64 = float(np.finfo(np.float64).eps)
@@ -145,6 +192,30 @@ SIBLINGS = {
 # that switches to another code path for large marker counts is only exercised there.  Small x extent so that C07's dense
 # matrices stay small.  Shared with C07.
 BIG_N = {2: (1.0, 32, 1536), 3: (1.0, 16, 1536)}
+# scalar-type variants of the two scalar constructor arguments (dx, eul_grid_coord_shift), one extra communicator per shard on the
+# (x_range, nx, N) of C06's first pool entry of the variant (C07 uses the same entries: shared numba cache): the same two VALUES passed
+# as python floats / 0-d arrays of the working precision / np.float64 scalars / 0-d float64 arrays.  Shared with C07.
+SCALAR_TYPES = {"A": "python-float", "B": "0d-array-working-precision", "C": "np.float64", "D": "0d-array-float64"}
+
+
+def scalar_as(kind, v):
+    """the working-precision value v as another scalar type (same numerical value)"""
+    if kind == "python-float":
+        return float(v)
+    if kind == "0d-array-working-precision":
+        return np.array(v)
+    if kind == "np.float64":
+        return np.float64(float(v))
+    if kind == "0d-array-float64":
+        return np.array(float(v))
+    raise ValueError(kind)
+
+
+def batch_layout(b):
+    """array layout of batch b: every third batch non-contiguous, alternating the two layouts"""
+    return None if b % 3 != 2 else ("views", "fortran")[(b // 3) % 2]
+
+
 # the monitors' dense NumPy algebra must not spawn a BLAS/OpenMP team per worker (16 workers share the cores)
 ONE_THREAD = {"OMP_NUM_THREADS": "1", "OPENBLAS_NUM_THREADS": "1", "MKL_NUM_THREADS": "1"}
 POSITION_CLASSES = ("uniform", "centre", "centre_ulp", "face", "face_ulp", "cluster", "mixed")
@@ -297,39 +368,113 @@ def gen_positions(rng, cls, N, shape, dx_t, real_t, x_range, position_field):
     return P
 
 
-class Comm:
-    """the real communicator kernels + buffers laid out like VirtualBoundaryForcing's"""
+LAYOUTS = (None, "views", "fortran")
 
-    def __init__(self, d, dx_t, N, real_t, kernel, positional=False):
+
+def view_1d(rng, a):
+    """1-D array with the same values as every second element of a sentinel-filled parent (non-unit stride)"""
+    a = np.asarray(a)
+    if a.dtype.kind == "f":
+        parent = util.sentinel_like(rng, (2 * a.shape[0] + 1,), a.dtype).copy()
+    else:
+        parent = np.full((2 * a.shape[0] + 1,), -(2**40), dtype=a.dtype)
+    v = parent[1::2]
+    v[...] = a
+    return v
+
+
+def layout_view(rng, a, layout):
+    """the values of ``a`` in the given array layout: None = ``a`` itself; "views" = interior of a sentinel-padded parent or every second
+    element of a parent along every axis (numba types both as layout 'A': one signature); "fortran" = column-major storage of an array
+    with >= 2 axes (a (d, N) Lagrangian field is then an (N, d) array passed as ``.T``; 1-D arrays have no second layout)"""
+    if layout is None:
+        return a
+    a = np.asarray(a)
+    if layout == "fortran":
+        return np.asfortranarray(a) if a.ndim >= 2 else a
+    if a.ndim == 1:
+        return view_1d(rng, a)
+    return util.noncontiguous_copy(rng, a, mode=("pad", "step")[int(rng.integers(2))])
+
+
+class Comm:
+    """the real communicator kernels + buffers laid out like VirtualBoundaryForcing's.
+
+    ``set_layout(rng, layout)`` switches every caller-supplied array of the following calls to a non-contiguous layout holding the
+    same values (see ``layout_view``): support/weight buffers, Eulerian fields, Lagrangian fields and outputs.  Marker positions and the
+    index buffer are only ever passed C- or F-contiguous ((N, d) storage passed as ``.T``): the support kernel reshapes both and numba
+    refuses to type ``reshape`` on a strided array (see the C06 module docstring).  The per-layout buffers are allocated once per object
+    and refilled in place (persistent view objects); results are handed to the monitors through ``np.ascontiguousarray``."""
+
+    def __init__(self, d, dx_t, N, real_t, kernel, positional=False, dx_arg=None, shift_arg=None):
         import sopht.numeric.immersed_boundary_ops as spi
 
         cls = spi.EulerianLagrangianGridCommunicator2D if d == 2 else spi.EulerianLagrangianGridCommunicator3D
         self.d, self.N, self.real_t, self.dx_t = d, N, real_t, dx_t
         self.shift_t = real_t(dx_t / 2)
+        # dx_arg / shift_arg: the same two values as another scalar type (python float, np.float64, 0-d array); default: working-precision
+        # NumPy scalars, what VirtualBoundaryForcing hands over when the simulators build it
+        dx_a = dx_t if dx_arg is None else dx_arg
+        sh_a = self.shift_t if shift_arg is None else shift_arg
         if positional:
             # documented signature (dx, eul_grid_coord_shift, num_lag_nodes, interp_kernel_width, real_t, n_components=1,
             # interp_kernel_type="cosine"): positional arguments, defaults left out where they apply
-            pos = (dx_t, self.shift_t, N, WIDTH, real_t)
+            pos = (dx_a, sh_a, N, WIDTH, real_t)
             self.scalar = cls(*pos) if kernel == "cosine" else cls(*pos, 1, kernel)
             self.vector = cls(*pos, d) if kernel == "cosine" else cls(*pos, d, kernel)
         else:
-            kw = dict(dx=dx_t, eul_grid_coord_shift=self.shift_t, num_lag_nodes=N, interp_kernel_width=WIDTH, real_t=real_t, interp_kernel_type=kernel)
+            kw = dict(dx=dx_a, eul_grid_coord_shift=sh_a, num_lag_nodes=N, interp_kernel_width=WIDTH, real_t=real_t, interp_kernel_type=kernel)
             self.scalar = cls(n_components=1, **kw)
             self.vector = cls(n_components=d, **kw)
         self.idx = np.empty((d, N), dtype=int)
         self.sup = np.empty((d,) + (2 * WIDTH,) * d + (N,), dtype=real_t)
         self.w = np.empty((2 * WIDTH,) * d + (N,), dtype=real_t)
+        self.layout, self._rng = None, None
+        self._bufs = {None: (self.idx, self.sup, self.w)}
+        self.calls = {}  # layout -> number of kernel calls made with it (flushed into the recorder by the check modules)
+
+    def set_layout(self, rng, layout):
+        if layout not in self._bufs:
+            idx = np.empty((self.d, self.N), dtype=int)
+            if layout == "fortran":
+                idx = np.asfortranarray(idx)
+            self._bufs[layout] = (idx, layout_view(rng, self._bufs[None][1], layout), layout_view(rng, self._bufs[None][2], layout))
+        self.layout, self._rng = layout, rng
+        self.idx, self.sup, self.w = self._bufs[layout]
+
+    def adopt(self, idx, sup, w):
+        """make caller-owned buffers (e.g. slots of a history stack) the current ones; undone by ``set_layout``"""
+        self.layout = None
+        self.idx, self.sup, self.w = idx, sup, w
+
+    def lay(self, rng, a):
+        return layout_view(rng, a, self.layout)
+
+    def _called(self, n=1):
+        self.calls[self.layout] = self.calls.get(self.layout, 0) + n
+
+    def flush_calls(self, rec):
+        for lay, n in self.calls.items():
+            if lay is not None:
+                rec.count("kernel_calls_with_noncontiguous_array_arguments", n)
+                rec.count(f"kernel_calls_layout_{lay}", n)
+        self.calls = {}
 
     def weights(self, rng, P):
         """support + weights kernels on sentinel-filled buffers; returns (idx, w)"""
         self.idx[...] = -(2**40)
         self.sup[...] = util.sentinel_like(rng, self.sup.shape, self.real_t)
         self.w[...] = util.sentinel_like(rng, self.w.shape, self.real_t)
+        if self.layout is not None:
+            P = np.ascontiguousarray(np.asarray(P).T).T  # positions stored (N, d), passed as .T
         self.scalar.local_eulerian_grid_support_of_lagrangian_grid_kernel(
             local_eul_grid_support_of_lag_grid=self.sup, nearest_eul_grid_index_to_lag_grid=self.idx, lag_positions=P
         )
         self.scalar.interpolation_weights_kernel(interp_weights=self.w, local_eul_grid_support_of_lag_grid=self.sup)
-        return self.idx, self.w
+        self._called(2)
+        if self.layout is None:
+            return self.idx, self.w
+        return np.ascontiguousarray(self.idx), np.ascontiguousarray(self.w)
 
     def windows_inside(self, shape):
         ok = np.ones(self.N, bool)
@@ -339,18 +484,42 @@ class Comm:
         return ok
 
     def interp(self, rng, u, vector=False):
-        lag = util.sentinel_like(rng, (self.d, self.N) if vector else (self.N,), self.real_t)
+        lag = self.lay(rng, util.sentinel_like(rng, (self.d, self.N) if vector else (self.N,), self.real_t))
         k = self.vector if vector else self.scalar
         k.eulerian_to_lagrangian_grid_interpolation_kernel(
-            lag_grid_field=lag, eul_grid_field=u, interp_weights=self.w, nearest_eul_grid_index_to_lag_grid=self.idx
+            lag_grid_field=lag, eul_grid_field=self.lay(rng, u), interp_weights=self.w, nearest_eul_grid_index_to_lag_grid=self.idx
         )
-        return lag
+        self._called()
+        return lag if self.layout is None else np.ascontiguousarray(lag)
 
     def spread(self, target, F, vector=False):
+        """``target`` is written in place: the caller lays it out (``comm.lay``) and reads it back"""
         k = self.vector if vector else self.scalar
         k.lagrangian_to_eulerian_grid_interpolation_kernel(
-            eul_grid_field=target, lag_grid_field=F, interp_weights=self.w, nearest_eul_grid_index_to_lag_grid=self.idx
+            eul_grid_field=target, lag_grid_field=self.lay(self._rng, F), interp_weights=self.w, nearest_eul_grid_index_to_lag_grid=self.idx
         )
+        self._called()
+
+
+def probe_excluded_layout(rec, rng, comm):
+    """The one layout that is NOT driven: strided (neither C- nor F-contiguous) marker positions / index buffers.  The support kernel
+    reshapes both and numba refuses to type ``reshape`` on a non-contiguous array ("reshape() supports contiguous array only"): a loud
+    rejection before any value exists, not a wrong value, hence no violation.  Observed once per process so that the evidence shows the
+    exclusion is deliberate (and shows it if a later SophT accepts such arrays)."""
+    P = rng.uniform(3.2, 4.8, size=(comm.d, 2 * comm.N)) * float(comm.dx_t)
+    sup = np.empty_like(comm._bufs[None][1])
+    idx = np.empty((comm.d, comm.N), dtype=int)
+    try:
+        comm.scalar.local_eulerian_grid_support_of_lagrangian_grid_kernel(
+            local_eul_grid_support_of_lag_grid=sup, nearest_eul_grid_index_to_lag_grid=idx, lag_positions=P[:, ::2]
+        )
+        rec.count("excluded_layout_strided_positions:accepted_by_this_tree")
+    except Exception as e:
+        if "contiguous" in str(e):
+            rec.count("excluded_layout_strided_positions:rejected_at_numba_typing")
+        else:
+            rec.count("excluded_layout_strided_positions:raises_otherwise")
+            rec.note(f"strided marker positions: {type(e).__name__}: {str(e)[:200]}")
 
 
 def kappa(P, dxf):
@@ -370,7 +539,7 @@ def run_shard(sh, rec):
     entries = [(e, "pool") for e in POOL[d][sh["variant"]]]
     if sh["variant"] == "B":
         entries.append((BIG_N[d], "bigN"))
-    entries += [(SIBLINGS[d][sh["variant"]], "sibling"), (POOL[d][sh["variant"]][0], "first-again")]
+    entries += [(SIBLINGS[d][sh["variant"]], "sibling"), (POOL[d][sh["variant"]][0], "first-again"), (POOL[d][sh["variant"]][0], "scalar-types")]
     first = None
     npred = 0
     for (x_range, nx, N), role in entries:
@@ -397,20 +566,27 @@ def run_shard(sh, rec):
                     rec.count("other_precision_predecessors_same_dyadic_dx")
                 except Exception as e:
                     rec.note(f"other-precision predecessor failed: {type(e).__name__}: {e}")
+            skind = SCALAR_TYPES[sh["variant"]] if role == "scalar-types" else None
             try:
-                comm = Comm(d, dx_t, N, real_t, kernel, positional=(role == "sibling"))
+                if skind is None:
+                    comm = Comm(d, dx_t, N, real_t, kernel, positional=(role == "sibling"))
+                else:
+                    # same spacing and shift VALUES as the first communicator of the process, passed as another scalar type
+                    comm = Comm(d, dx_t, N, real_t, kernel, dx_arg=scalar_as(skind, dx_t), shift_arg=scalar_as(skind, real_t(dx_t / 2)))
             except Exception as e:
-                rec.violation("communicator-construction-raises", f"{type(e).__name__}: {e} dx={dxf} N={N}", None)
+                rec.violation("communicator-construction-raises", f"{type(e).__name__}: {e} dx={dxf} N={N} scalar type {skind}", None)
                 rec.case(None)
                 continue
             if first is None and role == "pool":
                 first = comm
+                probe_excluded_layout(rec, rng, comm)
         nb = int(np.clip(target // N, 7 if tier == "quick" else 21, 120 if tier == "quick" else 600))
         if role == "bigN":
             nb = 7 if tier == "quick" else 21
         elif role != "pool":
             nb = max(7, nb // 3)
         off = int(rng.integers(len(POSITION_CLASSES)))
+        hist_at = int(rng.integers(nb))  # one history of temporary views per object, somewhere between its batches
         for b in range(nb):
             cls = POSITION_CLASSES[(b + off) % len(POSITION_CLASSES)]
             tall = tall_class(b, d)
@@ -419,7 +595,10 @@ def run_shard(sh, rec):
                 rec.count("batches_grid_y_exceeds_x")
             if d == 3 and shape[0] > shape[-1]:
                 rec.count("batches_grid_z_exceeds_x")
-            rec.count({"pool": "batches_pool_comm", "bigN": "batches_pool_comm", "sibling": "batches_sibling_comm_shared_dx_or_N", "first-again": "batches_first_comm_after_sibling"}[role])
+            rec.count({"pool": "batches_pool_comm", "bigN": "batches_pool_comm", "sibling": "batches_sibling_comm_shared_dx_or_N", "first-again": "batches_first_comm_after_sibling",
+                       "scalar-types": "batches_comm_built_with_other_scalar_types"}[role])
+            if role == "scalar-types":
+                rec.count(f"batches_dx_and_shift_passed_as_{SCALAR_TYPES[sh['variant']]}")
             if N > 1024:
                 rec.count(f"batches_more_than_1024_markers_{d}d")
             if N == d:
@@ -429,19 +608,37 @@ def run_shard(sh, rec):
             P = gen_positions(rng, cls, N, shape, dx_t, real_t, x_range, pf)
             base = (d, sh["dtype"], kernel, "dyadic" if dy else "nondyadic", n_class(N), cls)
             meta = {"dim": d, "dtype": sh["dtype"], "kernel": kernel, "x_range": x_range, "shape": shape, "dx": dxf, "N": N, "positions": cls, "object": role}
+            if role == "scalar-types":
+                meta["dx_and_shift_passed_as"] = SCALAR_TYPES[sh["variant"]]
+            layout = batch_layout(b)
+            comm.set_layout(rng, layout)
+            if layout is not None:
+                meta["layout"] = layout
+                rec.count("batches_noncontiguous_array_arguments")
+                rec.count(f"batches_layout_{layout}")
             _check_batch(rec, rng, comm, P, shape, pf, dxf, shiftf, eps, base, meta, kernel, real_t)
+            comm.flush_calls(rec)
+            if b == hist_at:
+                _history(rec, rng, comm, shape, pf, dx_t, x_range, dxf, shiftf, eps, base[:5], {k: v for k, v in meta.items() if k != "layout"}, kernel, real_t)
+        comm.set_layout(rng, None)
 
 
-def _check_batch(rec, rng, comm, P, shape, pf, dxf, shiftf, eps, base, meta, kernel, real_t):
+def _check_batch(rec, rng, comm, P, shape, pf, dxf, shiftf, eps, base, meta, kernel, real_t, pre=None):
+    """``pre``: one slot of a history of temporary views (``_history``): index, support and weights were already produced by the real
+    kernels in the history's tight loop and are adopted instead of being recomputed; the slot's interpolated constants are compared too"""
     d, N = comm.d, comm.N
     vol = LD(dxf) ** d
-    P0 = P.copy()
-    try:
-        idx, w = comm.weights(rng, P)
-    except Exception as e:
-        rec.violation("weights-raise", f"{type(e).__name__}: {e} {meta}", {"meta": meta, "P": P0})
-        rec.case(None)
-        return
+    P0 = np.array(P, copy=True)
+    if pre is not None:
+        comm.adopt(pre["idx"], pre["sup"], pre["w"])
+        idx, w = comm.idx, comm.w
+    else:
+        try:
+            idx, w = comm.weights(rng, P)
+        except Exception as e:
+            rec.violation("weights-raise", f"{type(e).__name__}: {e} {meta}", {"meta": meta, "P": P0})
+            rec.case(None)
+            return
     rec.case((*base, "weights"), sample={**meta, "first_marker": P0[:, 0]})
     rec.count("markers_checked", N)
     wit = {"meta": meta, "P": P0, "idx": idx.copy(), "w": w.copy()}
@@ -553,14 +750,8 @@ def _check_batch(rec, rng, comm, P, shape, pf, dxf, shiftf, eps, base, meta, ker
 
     # -- reproduction of constants through the real interpolation kernels
     ki = K_INTERP * 4**d
-    for c in (1.0, float(rng.standard_normal() * 10.0 ** float(rng.integers(-3, 4)))):
-        u = np.full(shape, c, dtype=real_t)
-        try:
-            lag = comm.interp(rng, u)
-        except Exception as e:
-            rec.violation("interpolation-raises", f"{type(e).__name__}: {e} {meta}", wit)
-            break
-        cr = float(u.flat[0])
+
+    def const_check(lag, cr):
         r_c = util.err_over_tol(lag, np.full(N, cr), ki * e_m * abs(cr))
         rec.stat("interp_constant", r_c)
         rec.count("interp_constant_values", N)
@@ -568,6 +759,23 @@ def _check_batch(rec, rng, comm, P, shape, pf, dxf, shiftf, eps, base, meta, ker
         if r_c > 1:
             m = int(np.argmax(np.abs(lag.astype(np.float64) - cr) / e_m)) if np.all(np.isfinite(lag)) else 0
             rec.violation("interp-constant!=constant", f"constant {cr} interpolated to {lag[m]} at marker {P0[:, m]} err/tol {r_c:.3g} {meta}", {**wit, "c": cr})
+
+    def const_vector_check(lag, ref):
+        r_c = util.err_over_tol(lag, ref, ki * e_m[None, :] * np.abs(ref))
+        rec.stat("interp_constant_vector", r_c)
+        rec.count("interp_constant_values", N * d)
+        rec.case((*base, "interp-const-vector"))
+        if r_c > 1:
+            rec.violation("interp-constant!=constant(vector)", f"constants {ref[:, 0]} interpolated to {lag[:, 0]} (marker 0) err/tol {r_c:.3g} {meta}", {**wit, "c": ref[:, 0]})
+
+    for c in (1.0, float(rng.standard_normal() * 10.0 ** float(rng.integers(-3, 4)))):
+        u = np.full(shape, c, dtype=real_t)
+        try:
+            lag = comm.interp(rng, u)
+        except Exception as e:
+            rec.violation("interpolation-raises", f"{type(e).__name__}: {e} {meta}", wit)
+            break
+        const_check(lag, float(u.flat[0]))
     cs = rng.standard_normal(d) * 10.0 ** rng.integers(-2, 3, size=d)
     u = np.empty((d,) + tuple(shape), dtype=real_t)
     for a in range(d):
@@ -575,14 +783,38 @@ def _check_batch(rec, rng, comm, P, shape, pf, dxf, shiftf, eps, base, meta, ker
     try:
         lag = comm.interp(rng, u, vector=True)
         ref = np.repeat(u.reshape(d, -1)[:, :1].astype(np.float64), N, axis=1)
-        r_c = util.err_over_tol(lag, ref, ki * e_m[None, :] * np.abs(ref))
-        rec.stat("interp_constant_vector", r_c)
-        rec.count("interp_constant_values", N * d)
-        rec.case((*base, "interp-const-vector"))
-        if r_c > 1:
-            rec.violation("interp-constant!=constant(vector)", f"constants {ref[:, 0]} interpolated to {lag[:, 0]} (marker 0) err/tol {r_c:.3g} {meta}", {**wit, "c": cs})
+        const_vector_check(lag, ref)
     except Exception as e:
         rec.violation("interpolation-raises", f"vector: {type(e).__name__}: {e} {meta}", wit)
+    if pre is not None:
+        # what the history's tight loop interpolated with this slot's temporary views (another constant per slot and component)
+        const_check(pre["lag"], float(pre["u"].flat[0]))
+        const_vector_check(pre["lagv"], np.repeat(pre["uv"].reshape(d, -1)[:, :1].astype(np.float64), N, axis=1))
+        rec.count("history_slots_compared")
+
+    # -- the constant ZERO (and a vector field with one exactly-zero component) into sentinel-filled outputs: every term of the sum is
+    #    0 * w with finite w, so the value at the marker is exactly 0 (the relative floor above is 0 for c = 0: compared exactly)
+    try:
+        lag = comm.interp(rng, np.zeros(shape, dtype=real_t))
+        zc = int(rng.integers(d))
+        u = np.empty((d,) + tuple(shape), dtype=real_t)
+        for a in range(d):
+            u[a] = 0.0 if a == zc else cs[a]
+        lagv = comm.interp(rng, u, vector=True)
+        rec.count("interp_zero_field_values", 2 * N)
+        rec.case((*base, "interp-zero"))
+        if not (np.all(lag == 0) and np.all(lagv[zc] == 0)):
+            bad = lag if not np.all(lag == 0) else lagv[zc]
+            m = int(np.argmax(~(bad == 0)))
+            rec.violation("interp-zero-field!=0", f"an all-zero field {'' if bad is lag else f'(component {zc} of a vector field) '}interpolated to {bad[m]!r} at marker {P0[:, m]} {meta}", wit)
+        ref = np.repeat(u.reshape(d, -1)[:, :1].astype(np.float64), N, axis=1)
+        keep = [a for a in range(d) if a != zc]
+        r_c = util.err_over_tol(lagv[keep], ref[keep], ki * e_m[None, :] * np.abs(ref[keep]))
+        rec.stat("interp_constant_vector", r_c)
+        if r_c > 1:
+            rec.violation("interp-constant!=constant(vector)", f"constants {ref[:, 0]} (component {zc} exactly zero) interpolated to {lagv[:, 0]} (marker 0) err/tol {r_c:.3g} {meta}", {**wit, "c": ref[:, 0]})
+    except Exception as e:
+        rec.violation("interpolation-raises", f"zero field: {type(e).__name__}: {e} {meta}", wit)
 
     # -- Peskin: the simulator's own coordinate field and a random affine field
     if kernel == "peskin":
@@ -625,3 +857,55 @@ def _check_batch(rec, rng, comm, P, shape, pf, dxf, shiftf, eps, base, meta, ker
                 rec.violation("interp-affine!=affine-at-marker", f"a0={a0} g={g}: marker 0 {P0[:, 0]} got {lag[0]} expected {ref[0]} err/tol {r_a:.3g} {meta}", {**wit, "a0": a0, "g": g})
         except Exception as e:
             rec.violation("interpolation-raises", f"{type(e).__name__}: {e} {meta}", wit)
+
+
+def _history(rec, rng, comm, shape, pf, dx_t, x_range, dxf, shiftf, eps, base5, meta, kernel, real_t):
+    """K calls of every kernel of ONE communicator in a tight loop in which every array argument is a TEMPORARY view ``stack[name][k]`` of
+    different memory (the view objects die after each call and CPython hands their id() to the next ones, so anything remembered per
+    id(argument) or per argument object is stale); afterwards every slot goes through the complete battery of ``_check_batch``."""
+    d, N = comm.d, comm.N
+    K = 3 if N >= 128 else int(rng.integers(3, 7))
+    classes = [POSITION_CLASSES[int(i)] for i in rng.permutation(len(POSITION_CLASSES))[:K]]
+    S = {
+        "P": np.stack([gen_positions(rng, c, N, shape, dx_t, real_t, x_range, pf) for c in classes]),
+        "idx": np.full((K, d, N), -(2**40), dtype=int),
+        "sup": util.sentinel_like(rng, (K,) + comm._bufs[None][1].shape, real_t).copy(),
+        "w": util.sentinel_like(rng, (K,) + comm._bufs[None][2].shape, real_t).copy(),
+        "u": np.empty((K,) + tuple(shape), real_t),
+        "uv": np.empty((K, d) + tuple(shape), real_t),
+        "lag": util.sentinel_like(rng, (K, N), real_t).copy(),
+        "lagv": util.sentinel_like(rng, (K, d, N), real_t).copy(),
+    }
+    for k in range(K):
+        S["u"][k] = float(rng.standard_normal() * 10.0 ** float(rng.integers(-3, 4)))
+        for a in range(d):
+            S["uv"][k, a] = float(rng.standard_normal() * 10.0 ** float(rng.integers(-2, 3)))
+    sc, vc = comm.scalar, comm.vector
+    P0 = S["P"].copy()
+    try:
+        for k in range(K):
+            sc.local_eulerian_grid_support_of_lagrangian_grid_kernel(
+                local_eul_grid_support_of_lag_grid=S["sup"][k], nearest_eul_grid_index_to_lag_grid=S["idx"][k], lag_positions=S["P"][k]
+            )
+            sc.interpolation_weights_kernel(interp_weights=S["w"][k], local_eul_grid_support_of_lag_grid=S["sup"][k])
+            sc.eulerian_to_lagrangian_grid_interpolation_kernel(
+                lag_grid_field=S["lag"][k], eul_grid_field=S["u"][k], interp_weights=S["w"][k], nearest_eul_grid_index_to_lag_grid=S["idx"][k]
+            )
+            vc.eulerian_to_lagrangian_grid_interpolation_kernel(
+                lag_grid_field=S["lagv"][k], eul_grid_field=S["uv"][k], interp_weights=S["w"][k], nearest_eul_grid_index_to_lag_grid=S["idx"][k]
+            )
+    except Exception as e:
+        rec.violation("history-of-temporary-views-raises", f"{type(e).__name__}: {e} call {k + 1} of {K} {meta}", {"meta": meta, "P": P0})
+        rec.case(None)
+        comm.set_layout(rng, None)
+        return
+    rec.count("histories_of_temporary_view_arguments")
+    rec.count("kernel_calls_with_temporary_view_arguments", 4 * K)
+    if not util.bits_equal(S["P"], P0):
+        rec.violation("marker-positions-modified", f"the support kernel changed its lag_positions argument {meta}", {"meta": meta, "P": P0})
+    for k in range(K):
+        m = {**meta, "positions": classes[k], "history": f"call {k + 1} of {K} with temporary views stack[name][k] of different memory"}
+        pre = {n: S[n][k] for n in ("idx", "sup", "w", "u", "uv", "lag", "lagv")}
+        _check_batch(rec, rng, comm, P0[k], shape, pf, dxf, shiftf, eps, (*base5, classes[k] + "/history"), m, kernel, real_t, pre=pre)
+    comm.flush_calls(rec)
+    comm.set_layout(rng, None)
